@@ -1532,7 +1532,7 @@ func run(c *vlib.Ctx) {
 
 	// ---- stage P3: condition-unit strings ----
 	units := []string{"a == 1", `b not sameas "x y"`, "c ex", "and", "or", "not", "(", ")"}
-	ulen := vlib.Pick(c, 7, 9)
+	ulen := vlib.Pick(c, 7, 8)
 	n4 := seqCount(len(units), ulen)
 	c.Scenario(fmt.Sprintf("parser input: 'query db:k where' + all %d strings of <= %d units over {3 conditions, and, or, not, (, )}, with and without trailing clauses", n4, ulen))
 	before = st.states
@@ -1547,6 +1547,15 @@ func run(c *vlib.Ctx) {
 			checkText(tt, l, hb)
 		}
 	})
+	if thorough {
+		// one step deeper over the reduced unit alphabet {1 condition, and, or, not, (, )}
+		u2 := []string{"a == 1", "and", "or", "not", "(", ")"}
+		lo, hi := seqCount(len(u2), 8), seqCount(len(u2), 10)
+		c.Scenario(fmt.Sprintf("parser input: 'query db:k where' + all %d strings of 9..10 units over {a == 1, and, or, not, (, )}", hi-lo))
+		parallel(c, st, hi-lo, func(i int, l *localStats, hb *heartbeat) {
+			checkText("query db:k where "+strings.Join(seqAt(u2, lo+i), " "), l, hb)
+		})
+	}
 	c.Extra("stage_unit_strings", st.states-before)
 	c.Sample(map[string]any{"stage": "unit strings", "text": `query db:k where ( a == 1 and c ex ) or not ( b not sameas "x y" ) orderby a limit 1`, "also": "query db:k where " + strings.Join(seqAt(units, n4-4321), " ")})
 
